@@ -17,6 +17,7 @@ from ..core import Outcome, HarnessError
 
 VERIF_DIR = os.path.dirname(os.path.dirname(os.path.dirname(os.path.abspath(__file__))))
 from ..kit import transport as TR
+from ..kit import env as envkit
 from ..kit import sched as S
 from ..ref import codec as R
 from hypothesis import strategies as st
@@ -268,7 +269,8 @@ def run_key_fetch_fault(case):
     import subprocess
     out = Outcome()
     r = subprocess.run([sys.executable, "-m", "vlib.props.c12_e2e", json.dumps(case)], cwd=VERIF_DIR, stdout=subprocess.PIPE,
-                       stderr=subprocess.PIPE, timeout=600, env=dict(os.environ, PYTHONDONTWRITEBYTECODE="1"))
+                       stderr=subprocess.PIPE, timeout=600,
+                       env=dict(os.environ, PYTHONDONTWRITEBYTECODE="1", TMPDIR=envkit.scratch_root()))
     line = [l for l in r.stdout.decode("utf-8", "replace").splitlines() if l.startswith("OUTCOME ")]
     if r.returncode != 0 or not line:
         raise HarnessError("key_fetch_fault child failed rc=%s: %s" % (r.returncode, r.stderr.decode("utf-8", "replace")[-600:]))
